@@ -30,6 +30,9 @@ pub fn check_output_more(t: &TaskCtx, out: &str, oi: &Info, st: &mut Stats, f: &
     if t.oracles & O_WS != 0 {
         c10_oracle(t, out, oi, st, f);
     }
+    if t.oracles & O_OPTS != 0 {
+        c11_oracle(t, out, oi, st, f);
+    }
 }
 
 // ---------------------------------------------------------------------------------------------------- C08
@@ -64,6 +67,194 @@ fn c08_oracle(t: &TaskCtx, out: &str, st: &mut Stats, f: &mut Vec<(String, Strin
                 }
             }
         }
+    }
+}
+
+// ---------------------------------------------------------------------------------------------------- C11
+#[derive(Clone, Debug, PartialEq)]
+enum ArgForm {
+    Str,
+    Table,
+    /// parenthesised list: number of arguments, single argument (after erasing redundant parentheses) is a string / table
+    Paren { n: usize, single_str: bool, single_table: bool },
+}
+struct CallSite {
+    form: ArgForm,
+    /// the next suffix is an index or a method call
+    obscure: bool,
+    has_comment: bool,
+    /// byte offset of the opening parenthesis (if any)
+    paren_at: Option<usize>,
+}
+struct Calls {
+    sites: Vec<CallSite>,
+    def_parens: Vec<usize>,
+}
+fn tok_has_comment(t: &full_moon::tokenizer::TokenReference) -> bool {
+    t.leading_trivia().chain(t.trailing_trivia()).any(|x| {
+        matches!(x.token_kind(), full_moon::tokenizer::TokenKind::SingleLineComment | full_moon::tokenizer::TokenKind::MultiLineComment)
+    })
+}
+fn strip_parens(e: &full_moon::ast::Expression) -> &full_moon::ast::Expression {
+    match e {
+        full_moon::ast::Expression::Parentheses { expression, .. } => strip_parens(expression),
+        _ => e,
+    }
+}
+impl Calls {
+    fn args(&mut self, a: &full_moon::ast::FunctionArgs, obscure: bool) {
+        use full_moon::ast::{Expression, FunctionArgs};
+        let site = match a {
+            FunctionArgs::String(t) => CallSite { form: ArgForm::Str, obscure, has_comment: tok_has_comment(t), paren_at: None },
+            FunctionArgs::TableConstructor(_) => CallSite { form: ArgForm::Table, obscure, has_comment: false, paren_at: None },
+            FunctionArgs::Parentheses { parentheses, arguments } => {
+                let (o, c) = parentheses.tokens();
+                let single = if arguments.len() == 1 { arguments.iter().next() } else { None };
+                let mut has_comment = tok_has_comment(o) || tok_has_comment(c);
+                if let Some(e) = single {
+                    // a comment anywhere around the single argument: not judged
+                    if e.to_string().contains("--") {
+                        has_comment = true;
+                    }
+                }
+                CallSite {
+                    form: ArgForm::Paren {
+                        n: arguments.len(),
+                        single_str: single.map_or(false, |e| matches!(strip_parens(e), Expression::String(_))),
+                        single_table: single.map_or(false, |e| matches!(strip_parens(e), Expression::TableConstructor(_))),
+                    },
+                    obscure,
+                    has_comment,
+                    paren_at: Some(o.token().start_position().bytes()),
+                }
+            }
+            _ => return,
+        };
+        self.sites.push(site);
+    }
+}
+impl full_moon::visitors::Visitor for Calls {
+    fn visit_function_call(&mut self, fc: &full_moon::ast::FunctionCall) {
+        use full_moon::ast::{Call, Suffix};
+        let sfx: Vec<&Suffix> = fc.suffixes().collect();
+        for (i, s) in sfx.iter().enumerate() {
+            let obscure = match sfx.get(i + 1) {
+                Some(Suffix::Index(_)) => true,
+                Some(Suffix::Call(Call::MethodCall(_))) => true,
+                _ => false,
+            };
+            match s {
+                Suffix::Call(Call::AnonymousCall(a)) => self.args(a, obscure),
+                Suffix::Call(Call::MethodCall(m)) => self.args(m.args(), obscure),
+                _ => {}
+            }
+        }
+    }
+    fn visit_function_body(&mut self, b: &full_moon::ast::FunctionBody) {
+        self.def_parens.push(b.parameters_parentheses().tokens().0.token().start_position().bytes());
+    }
+}
+
+fn c11_oracle(t: &TaskCtx, out: &str, oi: &Info, st: &mut Stats, f: &mut Vec<(String, String)>) {
+    use full_moon::visitors::Visitor;
+    let (Some(oast), Some(lexed)) = (&oi.ast, &oi.lexed) else { return };
+    // ---- quote_style: every quoted string token of the output
+    *st.oracle_evals.entry("quote-style").or_insert(0) += 1;
+    for (tok, a, _) in &lexed.toks {
+        if let crate::lex::Tok::Str { quote, body } = tok {
+            let s = body.iter().filter(|c| **c == b'\'').count();
+            let d = body.iter().filter(|c| **c == b'"').count();
+            let want = match t.cfg.qs {
+                2 => b'"',
+                3 => b'\'',
+                0 => if d > s { b'\'' } else { b'"' },
+                _ => if s > d { b'"' } else { b'\'' },
+            };
+            if *quote != want {
+                f.push(("quote-style".into(), format!("string at byte {} uses {} under {} ({} single / {} double quotes inside)", a, *quote as char, crate::cfg::QS_NAMES[t.cfg.qs as usize], s, d)));
+                break;
+            }
+        }
+    }
+    // ---- call_parentheses
+    let mut oc = Calls { sites: vec![], def_parens: vec![] };
+    oc.visit_ast(oast);
+    *st.oracle_evals.entry("call-parentheses").or_insert(0) += 1;
+    let omit_str = t.cfg.ncp || matches!(t.cfg.cp, 1 | 3);
+    let omit_tab = t.cfg.ncp || matches!(t.cfg.cp, 2 | 3);
+    if t.cfg.cp == 4 && !t.cfg.ncp {
+        if let Some(iast) = &t.input.ast {
+            let mut ic = Calls { sites: vec![], def_parens: vec![] };
+            ic.visit_ast(iast);
+            let kind = |s: &CallSite| match s.form {
+                ArgForm::Str => 0,
+                ArgForm::Table => 1,
+                ArgForm::Paren { .. } => 2,
+            };
+            let a: Vec<i32> = ic.sites.iter().map(kind).collect();
+            let b: Vec<i32> = oc.sites.iter().map(kind).collect();
+            if a != b {
+                f.push(("call-form-not-kept".into(), format!("call_parentheses = Input but the call forms changed: {:?} -> {:?} (0 string, 1 table, 2 parentheses)", a, b)));
+            }
+        }
+    } else {
+        for s in &oc.sites {
+            if s.has_comment {
+                continue;
+            }
+            match &s.form {
+                // "... have none UNLESS an index or method call follows": read as the documented behaviour, i.e. when
+                // one follows the parentheses are there (`require("x").y`, never `require "x".y`)
+                ArgForm::Str | ArgForm::Table if s.obscure => {
+                    f.push(("call-without-parentheses-before-index".into(), "a call without parentheses is directly followed by an index / method call".into()));
+                    break;
+                }
+                ArgForm::Str if !omit_str => {
+                    f.push(("call-without-parentheses".into(), "a string call without parentheses although the option does not omit them".into()));
+                    break;
+                }
+                ArgForm::Table if !omit_tab => {
+                    f.push(("call-without-parentheses".into(), "a table call without parentheses although the option does not omit them".into()));
+                    break;
+                }
+                ArgForm::Paren { n: 1, single_str: true, .. } if omit_str && !s.obscure => {
+                    f.push(("call-with-parentheses".into(), "a single string argument keeps its parentheses although the option omits them and no index / method call follows".into()));
+                    break;
+                }
+                ArgForm::Paren { n: 1, single_table: true, .. } if omit_tab && !s.obscure => {
+                    f.push(("call-with-parentheses".into(), "a single table argument keeps its parentheses although the option omits them and no index / method call follows".into()));
+                    break;
+                }
+                _ => {}
+            }
+        }
+    }
+    // ---- space_after_function_names: only where a NAME directly precedes the parenthesis
+    *st.oracle_evals.entry("space-after-function-names").or_insert(0) += 1;
+    let prev_tok = |at: usize| lexed.toks.iter().rev().find(|(_, _, e)| *e <= at);
+    let kw = ["function", "end", "return", "and", "or", "not", "if", "then", "else", "elseif", "while", "do", "until", "in", "local", "repeat", "for"];
+    let mut check = |at: usize, want_space: bool, what: &str, f: &mut Vec<(String, String)>| {
+        if let Some((crate::lex::Tok::Word(w), _, e)) = prev_tok(at) {
+            if kw.contains(&w.as_str()) {
+                return;
+            }
+            let gap = &out[*e..at];
+            if gap.contains('\n') || gap.contains("--") {
+                return;
+            }
+            let ok = if want_space { gap == " " } else { gap.is_empty() };
+            if !ok && f.iter().all(|x| x.0 != "function-name-space") {
+                f.push(("function-name-space".into(), format!("{} `{}`: gap before `(` is {:?} under {}", what, w, gap, crate::cfg::SAFN_NAMES[t.cfg.safn as usize])));
+            }
+        }
+    };
+    for s in &oc.sites {
+        if let Some(at) = s.paren_at {
+            check(at, matches!(t.cfg.safn, 2 | 3), "call of", f);
+        }
+    }
+    for at in &oc.def_parens {
+        check(*at, matches!(t.cfg.safn, 1 | 3), "definition of", f);
     }
 }
 
@@ -734,6 +925,50 @@ pub fn plans_for(prop: &str, thorough: bool) -> Vec<Plan> {
                 widths: Widths::Classes,
                 ranges: Ranges::None,
                 oracles: O_WS,
+                u_cap: 400,
+            });
+        }
+        "C11" => {
+            let opts = move |b: Cfg| {
+                let mut v = vec![];
+                for qs in 0..4u8 {
+                    for cp in 0..5u8 {
+                        for safn in 0..4u8 {
+                            if thorough || qs == 0 || (cp == 0 && safn == 0) || (qs == 3 && cp == 3 && safn == 3) {
+                                v.push(Cfg { qs, cp, safn, ..b });
+                            }
+                        }
+                    }
+                }
+                v.push(Cfg { ncp: true, ..b });
+                v.push(Cfg { cs: 3, cp: 3, safn: 3, ..b });
+                v
+            };
+            plans.push(Plan {
+                name: "F-CALL (call / function shapes) x quote_style x call_parentheses x space_after_function_names x all widths",
+                cases: gen::f_call(thorough),
+                cfgs: cross(false, opts.clone()),
+                widths: Widths::All,
+                ranges: Ranges::None,
+                oracles: O_OPTS,
+                u_cap: 400,
+            });
+            plans.push(Plan {
+                name: "F-STMT x option product x width classes",
+                cases: stmt.clone(),
+                cfgs: cross(false, opts),
+                widths: Widths::Classes,
+                ranges: Ranges::None,
+                oracles: O_OPTS,
+                u_cap: 400,
+            });
+            plans.push(Plan {
+                name: "F-STR (all bodies) x 4 quote styles",
+                cases: if thorough { gen::f_str(4, 5, 1) } else { gen::f_str(3, 4, 1) },
+                cfgs: Box::new(|_c: &Case| (0..4u8).map(|qs| Cfg { qs, ..Cfg::default() }).collect()),
+                widths: Widths::Wide,
+                ranges: Ranges::None,
+                oracles: O_OPTS,
                 u_cap: 400,
             });
         }
